@@ -223,6 +223,15 @@ STAGES['C01']['thorough'] += [('call-sequences-len4', 'MsgCalls', dict(MAXCALLS=
 STAGES['C12']['quick'].append(
     ('signed-producers-and-sinks', 'MimeBuild', cfg(MAXP='2', MAXE='1', MAXA='1', ENCS='{"qp", "8bit"}', SMIMES='{[key |-> "ecdsa", inter |-> FALSE]}',
                                                     FAULTS=PRODFAULTS + ' \\cup {[kind |-> "sink", slot |-> 0, when |-> ""]}', CCS='<<"crlf", "utf8">>')))
+# a boundary of the caller (and every signed message) makes the writer call multipart.Writer.SetBoundary: the step that
+# used to erase a pending error (fix 0642c98); short writes fail ONE call and accept the rest, which is what shows it
+STAGES['C12']['quick'].append(
+    ('given-boundary-sink-faults', 'MimeBuild', cfg(MAXP='2', MAXE='1', MAXA='1', ENCS='{"qp", "8bit"}', BOUNDARIES='{"fixed"}', FAULTS=SINKFAULTS, CCS='<<"crlf", "utf8">>')))
+STAGES['C12']['quick'].append(
+    ('signed-short-writes', 'MimeBuild', cfg(MAXP='1', MAXE='1', MAXA='1', ENCS='{"qp", "8bit"}', SMIMES='{[key |-> "ecdsa", inter |-> FALSE]}',
+                                             FAULTS='{[kind |-> "short", slot |-> 0, when |-> ""], [kind |-> "shortnil", slot |-> 0, when |-> ""]}', CCS='<<"crlf">>')))
+STAGES['C12']['thorough'].append(
+    ('given-boundary-sink-faults', 'MimeBuild', cfg(MAXP='2', MAXE='2', MAXA='2', ENCS='{"qp", "b64", "8bit"}', BOUNDARIES='{"fixed"}', FAULTS=SINKFAULTS, CCS='<<"crlf", "utf8", "size300">>')))
 STAGES['C12']['thorough'].append(
     ('signed-producers-and-sinks', 'MimeBuild', cfg(MAXP='2', MAXE='2', MAXA='2', ENCS='{"qp", "b64", "8bit"}', SMIMES=KEYS2,
                                                     FAULTS=PRODFAULTS + ' \\cup ' + SINKFAULTS, CCS='<<"crlf", "utf8">>')))
